@@ -329,6 +329,14 @@ def gen_case(rng, chk, kind, prec):
                     # 2e-6 … 6e-5, never a round multiple of 1e-6·max_p (no float/rational tie at the threshold)
                     members.append({"w": core.rat(Fraction(rng.randint(2000, 60000) * 1000 + 137, 10 ** 12)),
                                     "terms": terms})
+            # superposed members made of several tag groups at an ordinary or smallish weight (1e-3 … 0.3): the
+            # recombination of their groups runs with a threshold that must stay negligible at this precision
+            if superposed:
+                for _ in range(rng.randint(1, 2)):
+                    terms = gen_terms(rng, m, nm, max(ntags, 2), rng.randint(2, 3), True, used)
+                    if len(terms) >= 2:
+                        members.append({"w": core.rat(Fraction(rng.choice([1, 3, 10, 40, 137, 300]), 1000)),
+                                        "terms": terms})
             rng.shuffle(members)
         case["members"] = members
     elif kind == "dm":
@@ -567,6 +575,121 @@ def mix_profile(u, m, members):
             local[o] = local.get(o, 0.0) + w * e
         slack += w * sl
     return local, slack
+
+
+# ------------------------------------------------------------------------------------------------
+# what a relative precision permits to neglect (numpy, independent of the Lean model)
+# ------------------------------------------------------------------------------------------------
+# "up to the configured precision", evaluated directly: with θ = max(min_p, precision · max weight), the simulator may
+#   (a) leave out a member (after the split by photon number) whose weight is ≤ θ;
+#   (b) leave out, inside a kept member of weight w, a product of group amplitudes of a term of coefficient c whose
+#       weighted probability w·|c|²·|∏ amplitudes|² is ≤ θ/10 (only terms made of ≥ 2 tag groups are recombined);
+#   (c) lose what the native StateVector container discards (modulus < 1e-6, see `loss_profile`).
+# Nothing else.  `precision_budget` turns this into a tolerance per outcome: the largest change of an un-normalised
+# outcome probability that leaving out ANY subset of the permitted items can cause, plus the effect of the final
+# normalisation.  An implementation that drops exactly the permitted items (the current one) stays within it; one
+# that drops more than the precision allows leaves it.
+BUDGET_EPS = 1e-9
+
+
+def split_parts(members):
+    """members -> [(raw weight, terms)] after `_split_by_photon_count` (superpositions of unequal photon numbers)"""
+    parts = []
+    for mb in members:
+        w = float(Fraction(mb["w"]))
+        terms = mb["terms"]
+        ns = [sum(len(x) for x in t["state"]) for t in terms]
+        if len(terms) > 1 and len(set(ns)) > 1:
+            cs = [abs(cq(t["coef"])) ** 2 * term_scale(t["state"]) for t in terms]
+            for n in sorted(set(ns)):
+                idx = [i for i in range(len(terms)) if ns[i] == n]
+                parts.append((w * sum(cs[i] for i in idx) / sum(cs), [terms[i] for i in idx]))
+        else:
+            parts.append((w, terms))
+    return parts
+
+
+def part_budget(u, m, terms, thr2):
+    """one kept member: `thr2[t]` = largest squared modulus of a product of group amplitudes of term t that may be
+    neglected (0: none).  -> ({occupation: largest change of its probability}, their sum)"""
+    cs = [cq(t["coef"]) * math.sqrt(term_scale(t["state"])) for t in terms]
+    nrm = math.sqrt(sum(abs(c) ** 2 for c in cs))
+    contrib, total = {}, {}
+    for c, t, th in zip(cs, terms, thr2):
+        for k, a in py_term_amps(u, m, t["state"]).items():
+            x = c / nrm * a
+            drop = abs(a) ** 2 <= th or abs(a) < DROP or abs(x) < DROP
+            contrib.setdefault(k, []).append((abs(x), drop))
+            total[k] = total.get(k, 0j) + x
+    local, slack = {}, 0.0
+    for k, lst in contrib.items():
+        l = sum(x for x, d in lst if d)
+        tk = abs(total[k])
+        if tk < DROP:
+            l += tk
+        if not l:
+            continue
+        if len(lst) == 1:
+            e = tk * tk                      # a lone contribution is there or not
+        else:
+            e = 2 * tk * l + l * l
+        e *= 1.001
+        o = key_occ(k, m)
+        local[o] = local.get(o, 0.0) + e
+        slack += e
+    return local, slack
+
+
+def precision_budget(u, m, members, prec=DEFAULT_PREC):
+    """-> (d, D, info): d[o] bounds the change of the un-normalised probability of o (weights normalised to 1),
+    D bounds the change of the total mass; a result normalised at the end may differ from the exact mixture P by at most
+    (d[o] + P[o]·D)/(1 − D)"""
+    parts = split_parts(members)
+    tot = sum(float(Fraction(mb["w"])) for mb in members)
+    theta = max(float(MINP), max(float(Fraction(mb["w"])) for mb in members) * prec)
+    d, big_d = {}, 0.0
+    info = {"theta": theta, "trimmed": 0, "multi_group_superposed": 0, "window": 0}
+    for w, terms in parts:
+        wn = w / tot
+        if w <= theta * (1 + BUDGET_EPS):
+            info["trimmed"] += 1
+            big_d += wn
+            for o, p in py_probs(py_sv_amps(u, m, terms), m).items():
+                d[o] = d.get(o, 0.0) + wn * p
+            continue
+        cs = [abs(cq(t["coef"])) ** 2 * term_scale(t["state"]) for t in terms]
+        thr2 = []
+        for c2, t in zip(cs, terms):
+            ngroups = len([g for g in tags_of(t["state"])])
+            thr2.append(theta / (10 * (c2 / sum(cs)) * w) * (1 + BUDGET_EPS) if ngroups >= 2 else 0.0)
+        if len(terms) > 1 and any(thr2) and wn >= 1e-3:
+            info["multi_group_superposed"] += 1
+            # a product that the precision does NOT allow to neglect, but whose squared modulus is small
+            # (below the square root of its threshold): the region where a threshold applied on the wrong scale shows
+            for t, th in zip(terms, thr2):
+                if th and any(th < abs(a) ** 2 <= math.sqrt(th) for a in py_term_amps(u, m, t["state"]).values()):
+                    info["window"] += 1
+                    break
+        loc, sl = part_budget(u, m, terms, thr2)
+        for o, e in loc.items():
+            d[o] = d.get(o, 0.0) + wn * e
+        big_d += wn * sl
+    return d, big_d, info
+
+
+def beyond_budget(obs, ref, d, big_d, extra=None, extra_slack=0.0, floor=1e-8):
+    """obs, ref: {occupation: float}.  -> None or (key, observed, reference, allowed)"""
+    if big_d >= 0.5:
+        return None
+    extra = extra or {}
+    worst = None
+    for k in set(obs) | set(ref):
+        p = ref.get(k, 0.0)
+        allowed = (d.get(k, 0.0) + p * big_d) / (1 - big_d) * 1.01 + extra.get(k, 0.0) + 2 * extra_slack + floor
+        dev = abs(obs.get(k, 0.0) - p)
+        if dev > allowed and (worst is None or dev / allowed > worst[4]):
+            worst = (list(k), obs.get(k, 0.0), p, allowed, dev / allowed)
+    return worst[:4] if worst else None
 
 
 class Bad(Exception):
@@ -816,6 +939,26 @@ def judge_sv(chk, case, rep, sim, circuit, u, record):
     if d:
         record("svd-generic-single", f"probs_svd({{{sv}: 1}})[{d[0]}] = {d[1]!r}, expected {d[2]!r}", spec_ok,
                prop_linear())
+    # one long-lived simulator: other coefficients on the same basis states, then the first input again — the answers
+    # must be those of a fresh simulator (the cache of evolved groups is shared between the calls)
+    alt = []
+    for k, t in enumerate(terms):
+        re, im = (Fraction(x) for x in terms[(k + 1) % len(terms)]["coef"])
+        z = [(re, im), (-im, re), (-re, -im), (im, -re)][k % 4]
+        alt.append({"coef": [core.rat(z[0] * (k + 2)), core.rat(z[1] * (k + 2))], "state": t["state"]})
+    chk.branch("sv-history")
+    for name, tt in (("other coefficients", alt), ("the first input again", terms)):
+        fresh = make_sim(case["engine"], circuit, 0)
+        a, b = sv_to_dict(sim.evolve(build_sv(tt))), sv_to_dict(fresh.evolve(build_sv(tt)))
+        d = cmp_amps(a, b, 1e-9)
+        if d is None:
+            pa, pb = bsd_to_dict(sim.probs(build_sv(tt))), bsd_to_dict(fresh.probs(build_sv(tt)))
+            dd = cmp_float_dist(pa, pb, 1e-9)
+            d = dd and (dd[0], dd[1], dd[2])
+        if d:
+            record("sv-history", f"after evolving {sv} on the same Simulator, {name}: {build_sv(tt)} gives {d[1]:.9g} at "
+                   f"{d[0]}, a fresh Simulator gives {d[2]:.9g}", False, True)
+            break
 
 
 def trim_bound(case, rep, m):
@@ -895,6 +1038,35 @@ def judge_svd(chk, case, rep, sim, circuit, u, record):
     if worst > bound:
         record("trim-bound", f"default precision: |probs_svd − exact mixture| = {worst:.3g} exceeds the declared bound "
                f"{bound:.3g} (trimmed input mass {cut:.3g} + threshold slack {inner:.3g})", spec_ok, True)
+    # the property itself at the configured precision, evaluated without the Lean model: the result may differ from the
+    # weighted sum of the members only by what the precision permits to neglect (`precision_budget`)
+    bd, big_d, info = precision_budget(u, m, members)
+    if info["trimmed"]:
+        chk.branch("budget-trims-member")
+    if info["multi_group_superposed"]:
+        chk.branch("default-precision-superposed-multigroup")
+    if info["window"] and big_d < 1e-3:
+        chk.branch("budget-discriminating")
+    chk.count("precision_budget", f"1e{int(math.floor(math.log10(big_d + 1e-300)))}")
+    why = None
+    b1 = beyond_budget(obs, spec, bd, big_d) if spec_ok else None
+    if b1:
+        why = (f"default precision: probs_svd[{b1[0]}] = {b1[1]!r}, the weighted sum of the members (from the circuit's "
+               f"matrix) is {b1[2]!r}; the precision {DEFAULT_PREC:g} accounts for at most {b1[3]:.3g}")
+    nloc, nslack = mix_profile(u, m, members)
+    acc = {}
+    s2 = make_sim(case["engine"], circuit, 0)
+    for mb in members:
+        w = float(Fraction(mb["w"]) / tot)
+        inp = build_sv(mb["terms"]) if len(mb["terms"]) > 1 else build_bs(mb["terms"][0]["state"])
+        for k, p in bsd_to_dict(s2.probs(inp)).items():
+            acc[k] = acc.get(k, 0.0) + w * p
+    b2 = beyond_budget(obs, acc, bd, big_d, extra=nloc, extra_slack=nslack, floor=1e-7)
+    if b2 and why is None:
+        why = (f"default precision: probs_svd[{b2[0]}] = {b2[1]!r}, but ∑ wᵢ·probs(memberᵢ) = {b2[2]!r} on the same "
+               f"simulator class; the precision {DEFAULT_PREC:g} accounts for at most {b2[3]:.3g}")
+    if why:
+        record("precision-exceeded", why, bool(b1), bool(b2))
     # the model of the trimming itself: input trimming, product thresholds of the fast path and amplitude
     # thresholds of `_merge_sv` on the generic path, emulated exactly
     model = exact_dist(rep["probs"])
@@ -930,12 +1102,38 @@ def judge_dm(chk, case, rep, sim, circuit, u, record):
     for (t, num, tf), i in zip(rep["diag"], range(len(basis))):
         if not core.close(exp[i, i], core.uncx(num) / tf, 1e-12):
             raise Bad("model-internal", "dm route and mixture route differ")
+    def relabel(mx):
+        r = np.zeros((len(basis), len(basis)), dtype=complex)
+        for a, i in enumerate(idx):
+            for b, j in enumerate(idx):
+                r[i, j] = mx[a, b]
+        return r
+
+    # the density matrix handed to the simulator IS the mixed state of the SVDistribution: ρ = ∑ wᵢ |ψᵢ⟩⟨ψᵢ|, from the
+    # coefficients of the input alone (no circuit, no model)
+    rho_exp = np.zeros((len(basis), len(basis)), dtype=complex)
+    nonreal = False
+    for mb in members:
+        cs = [cq(t["coef"]) * math.sqrt(term_scale(t["state"])) for t in mb["terms"]]
+        nrm = math.sqrt(sum(abs(c) ** 2 for c in cs))
+        psi = np.zeros(len(basis), dtype=complex)
+        for c, t in zip(cs, mb["terms"]):
+            psi[basis.index(tuple(occ(t["state"])))] += c / nrm
+        rho_exp += float(Fraction(mb["w"])) * np.outer(psi, psi.conj())
+        for (c1, t1), (c2, t2) in itertools.combinations(zip(cs, mb["terms"]), 2):
+            if sum(occ(t1["state"])) == sum(occ(t2["state"])) and abs((c1 * c2.conjugate()).imag) > 1e-9:
+                nonreal = True
+    if nonreal:
+        chk.branch("dm-nonreal-phase")
+    rho_in = relabel(dm.mat.toarray())
+    e_in = np.abs(rho_in - rho_exp)
+    if e_in.max() > 1e-9:
+        i, j = np.unravel_index(e_in.argmax(), e_in.shape)
+        record("dm-from-svd", f"DensityMatrix.from_svd: entry ({list(basis[i])},{list(basis[j])}) = {rho_in[i, j]:.9g}, but "
+               f"∑ wᵢ|ψᵢ⟩⟨ψᵢ| has {rho_exp[i, j]:.9g}: the density matrix is not the mixed state of the distribution",
+               False, True)
     out = sim.evolve_density_matrix(dm)
-    mat = out.mat.toarray()
-    got = np.zeros_like(exp)
-    for a, i in enumerate(idx):
-        for b, j in enumerate(idx):
-            got[i, j] = mat[a, b]
+    got = relabel(out.mat.toarray())
     spec = py_svd(u, m, members)
     tot = float(sum(Fraction(mb["w"]) for mb in members))
     exact_svd = exact_dist(rep["svd"])
@@ -962,12 +1160,25 @@ def judge_dm(chk, case, rep, sim, circuit, u, record):
         chk.branch("native-amplitude-cutoff")
     ploc = {basis[i]: float(etol[i, i]) / tot for i in range(len(basis)) if etol[i, i]}
     slack = float(np.trace(etol)) / tot
+    def prop_dm_mixture():
+        """the property on the real code, whole matrix: evolving the density matrix of a mixture gives the mixture of the
+        evolved members, ∑ wᵢ |evolve(ψᵢ)⟩⟨evolve(ψᵢ)| (a coherence is observable behind any further circuit)"""
+        s2 = make_sim(case["engine"], circuit, 0)
+        ref = np.zeros((len(basis), len(basis)), dtype=complex)
+        for mb in members:
+            inp = build_sv(mb["terms"]) if len(mb["terms"]) > 1 else build_bs(mb["terms"][0]["state"])
+            psi = np.zeros(len(basis), dtype=complex)
+            for s_out, a in s2.evolve(inp):
+                psi[basis.index(tuple(s_out))] += complex(a)
+            ref += float(Fraction(mb["w"])) * np.outer(psi, psi.conj())
+        return bool((np.abs(got - ref) - 2 * etol).max() > 1e-7)
+
     err = np.abs(got - exp) - etol
     if err.max() > core.TOL:
         i, j = np.unravel_index(err.argmax(), err.shape)
         record("dm-evolve", f"evolve_density_matrix: entry ({list(basis[i])},{list(basis[j])}) = {got[i, j]:.9g}, "
                f"VρV† = {exp[i, j]:.9g}", spec_ok if i == j and core.close(spec.get(basis[i], 0.0) * tot, exp[i, i].real, 1e-7)
-               else False, prop_dm_svd())
+               else False, prop_dm_svd() or prop_dm_mixture())
     r = sim.probs_density_matrix(dm)
     obs = bsd_to_dict(r["results"])
     d = cmp_dist(obs, exact_dist(rep["probs"]), extra=ploc, slack=slack)
@@ -1139,7 +1350,8 @@ def run(chk: core.Check):
     chk.required_branches = ["kind:bs", "kind:sv", "kind:svd", "kind:dm", "engine:SLOS", "engine:Naive", "multi-tag",
                              "two-tags-in-one-mode", "vacuum", "sv-unequal-n", "sv-equal-n", "sv-tagged", "svd-fast",
                              "svd-generic", "svd-split", "svd-unnormalised-weights", "trim-fires", "threshold-bites-fast",
-                             "threshold-bites-generic", "dm-coherences",
+                             "threshold-bites-generic", "dm-coherences", "dm-nonreal-phase", "sv-history",
+                             "budget-trims-member", "default-precision-superposed-multigroup", "budget-discriminating",
                              "pa-zero", "pa-nonzero", "rejected"]
     rng = chk.rng
     n_lean = chk.pick(4, 8)
@@ -1188,6 +1400,11 @@ def run(chk: core.Check):
             results = pool.map(_work, [(c, r, chk.thorough) for c, r in zip(cases, reps)], chunksize=8)
         for c, r, done in zip(cases, reps, results):
             handle(chk, c, r, None, done)
+        # one defect, one report: a disagreement that a direct oracle confirmed on some case is reported as that
+        # confirmed violation (first), not additionally as an unconfirmed model/code difference of the same signature
+        confirmed = {f[1] for f in chk.failures if f[0] == "violation"}
+        chk.failures[:] = ([f for f in chk.failures if f[0] == "violation"] +
+                           [f for f in chk.failures if f[0] != "violation" and f[1] not in confirmed])
     finally:
         for d in drivers[1:]:
             chk.lean.n += d.n
